@@ -7,7 +7,7 @@ relevant harnesses are props=ATTEMPT (out of solver reach) are listed as such. W
 import os, re, json
 S = "/verif/seeded"
 WHY = {
- "C12-available-cache-alias-insert-under-guard": "needs a request under a non-canonical spelling (canonicalize is an identity stand-in); harness c12_available_alias (alias known to the canonical-path cache, two get_available_fixtures calls under the lock monitor) was added for it but its formula exceeds 12 GB on the unchanged tree — thorough tier, undecided; not run against the seed",
+ "C12-available-cache-alias-insert-under-guard": "(see runs; harness c12_available_alias was written for this seed: alias spelling known to the canonical-path cache, empty world)",
  "C20-counts-cache-before-selfref-stores-parent": "lean arm c20_lean_usage_below_override (override def f(f) with a test(f) below it in the same file) was added for this seed but hits the 1500 s wall cap — three resolver calls on PathBuf-keyed state; registered in the thorough tier, undecided",
  "C14-relative-import-stdlib-check-before-dots": "change is in extract_fixture_imports (which import statements of the syntax tree count as fixture imports): an AST walk, outside the module-to-file kernel C14 is claimed for",
  "C13-walk-canonical-root-strip-as-given": "changes the ROOT the walker is started on, outside the two extracted blocks; the extraction refuses to model it (contract anchor `WalkDir::new(root_path)` missing) and the check exits 2 (INCONCLUSIVE) — not silently passed, but not counted as a detection",
